@@ -56,6 +56,8 @@ func (v Val) goValue() interface{} {
 		return nil
 	case "bool":
 		return v.L[0] == 1
+	case "cplx":
+		return complex(float64(v.L[0]), float64(v.L[1]))
 	case "int":
 		return int64(u64(v.L))
 	case "flt":
@@ -112,6 +114,24 @@ var scriptsLit = map[string]string{
 	"lege": "%[1]s <= %[2]s && %[1]s >= %[2]s",
 }
 
+// the same uses with the operands arriving as results of Go functions declared to return interface{} (not addressable, still wrapped)
+var scriptsRet = map[string]string{
+	"eq":   "ga() == gb()",
+	"ne":   "ga() != gb()",
+	"inn":  "ga() in [gb()]",
+	"sw":   "func() { switch ga() { case gb(): return true }; return false }()",
+	"lege": "ga() <= gb() && ga() >= gb()",
+}
+
+// ... as the value variable of a map range and a receive from a channel of interface{}
+var scriptsRange = map[string]string{
+	"eq":   "func() { for k, v in ma { for k2, w in mb { return v == w } } }()",
+	"ne":   "func() { for k, v in ma { for k2, w in mb { return v != w } } }()",
+	"inn":  "func() { for k, v in ma { return v in lb } }()",
+	"sw":   "func() { for k, v in ma { switch v { case <-cb: return true }; return false } }()",
+	"lege": "func() { for k, v in ma { for k2, w in mb { return v <= w && v >= w } } }()",
+}
+
 // literal spelling of a pool value, "" when it has none that every reader of the grammar agrees on
 func (v Val) literal() string {
 	switch v.T {
@@ -165,6 +185,13 @@ func eval(a, b interface{}, src string) (res bool, status string) {
 	e.Define("b", b)
 	e.Define("la", []interface{}{a})
 	e.Define("lb", []interface{}{b})
+	e.Define("ga", func() interface{} { return a })
+	e.Define("gb", func() interface{} { return b })
+	e.Define("ma", map[string]interface{}{"k": a})
+	e.Define("mb", map[string]interface{}{"k": b})
+	cb := make(chan interface{}, 1)
+	cb <- b
+	e.Define("cb", cb)
 	v, err := vm.Execute(e, nil, src)
 	if err != nil {
 		return false, "error: " + err.Error()
@@ -203,7 +230,7 @@ func main() {
 	for i := range pool {
 		for j := i; j < len(pool); j++ {
 			a, b := pool[i].goValue(), pool[j].goValue()
-			provs := []string{"plain", "elem"}
+			provs := []string{"plain", "elem", "ret", "range"}
 			if pool[j].literal() != "" {
 				provs = append(provs, "litb") // b written as a literal, a in a variable
 			}
@@ -227,6 +254,12 @@ func main() {
 				set := scripts
 				if prov == "elem" {
 					set = scriptsElem
+				}
+				if prov == "ret" {
+					set = scriptsRet
+				}
+				if prov == "range" {
+					set = scriptsRange
 				}
 				a, b := a, b
 				if prov == "shared" {
